@@ -9,6 +9,8 @@ hypotheses.
 -/
 import GPVerif.Model.ExactGP
 import GPVerif.Bridge.GenAlgebra
+import GPVerif.Gen.ExactCall
+import GPVerif.Bridge.ExactCall
 import Mathlib.LinearAlgebra.Matrix.SchurComplement
 import Mathlib.Data.Matrix.ColumnRowPartitioned
 import Mathlib.Tactic.Abel
@@ -285,6 +287,145 @@ theorem gen_call_facts : catTrainFirst = true ∧ catDimPoints = true ∧ evalTo
 
 end generated
 
+/-! ### The regenerated call structure (`GPVerif/Gen/ExactCall.lean`, translator `g7_exact_call.py`)
+
+What `ExactGP.__call__` and `DefaultPredictionStrategy` do around the algebra above: which branch runs, how the joint
+inputs `[train; test]` are built under batch broadcasting, how a multitask event is flattened / reshaped, what is
+detached under `detach_test_caches`.  The statements are about the definitions the translator extracts from the Python
+AST on every run (and `drivers/C01.lean` executes); the specifications are in `GPVerif/Model/ExactCall.lean`. -/
+
+section callgen
+open Bcast Bcast.T ExactCall Gen.ExactCall
+
+/-- The generated decision tree of `ExactGP.__call__` is the documented behaviour, for all 128 flag combinations. -/
+theorem gen_call_modes_eq_model (c : CallCfg) : callMode c = callSpec c := by
+  rcases c with ⟨a, b, c, d, e, f, g⟩
+  cases a <;> cases b <;> cases c <;> cases d <;> cases e <;> cases f <;> cases g <;> rfl
+
+/-- The posterior branch — the one the closed form of this file is about — runs exactly in evaluation mode with
+training inputs and targets present and `prior_mode` off (and, under `settings.debug`, a `MultivariateNormal` prior). -/
+theorem gen_posterior_branch_iff (c : CallCfg) :
+    (∃ w, callMode c = Outcome.posterior w) ↔
+      (c.training = false ∧ c.priorMode = false ∧ c.hasInputs = true ∧ c.hasTargets = true ∧
+        (c.debug = true → c.outputIsMVN = true)) := by
+  rcases c with ⟨a, b, c, d, e, f, g⟩
+  cases a <;> cases b <;> cases c <;> cases d <;> cases e <;> cases f <;> cases g <;> simp [callMode]
+
+/-- Training mode returns the prior at the call inputs; under `settings.debug` only when they are the training inputs. -/
+theorem gen_training_branch (c : CallCfg) (h : c.training = true) (hi : c.hasInputs = true)
+    (hd : c.debug = true → c.inputsEqual = true) : callMode c = Outcome.priorAtInputs := by
+  rcases c with ⟨a, b, c, d, e, f, g⟩
+  cases a <;> cases b <;> cases c <;> cases d <;> cases e <;> cases f <;> cases g <;> simp_all [callMode]
+
+/-- Evaluation mode under `prior_mode`, or without training inputs / targets, returns the prior at the arguments. -/
+theorem gen_prior_branch (c : CallCfg) (h : c.training = false)
+    (hp : c.priorMode = true ∨ c.hasInputs = false ∨ c.hasTargets = false)
+    (hd : c.debug = true → c.outputIsMVN = true) : callMode c = Outcome.priorAtArgs := by
+  rcases c with ⟨a, b, c, d, e, f, g⟩
+  cases a <;> cases b <;> cases c <;> cases d <;> cases e <;> cases f <;> cases g <;> simp_all [callMode]
+
+/-- The generated loop that builds `full_inputs` is the joint input `[train; test]` of the specification: it is defined
+iff the two batch shapes broadcast, has the broadcast batch shape, and batch element `b` holds the train rows of the
+train batch element that `b` broadcasts to, followed by the test rows (all batch ranks, all sizes). -/
+theorem gen_concat_eq_model {α : Type} (tr te : T α) (n s : Nat) (bt bi : RShape)
+    (htr : tr.shape = n :: bt) (hte : te.shape = s :: bi) :
+    match catInputs tr te, concatSpec tr te with
+    | some g, some m => TEq g m
+    | none, none => True
+    | _, _ => False := by
+  by_cases h : bt = bi
+  · subst h
+    have hg : catInputs tr te = some (catRows tr te) := by
+      simp [catInputs, htr, hte]
+    rw [hg]
+    simp only [concatSpec, htr, hte, List.tail_cons, bcastR_self, Option.map_some]
+    refine ⟨by simp [catRows, htr, hte], ?_⟩
+    intro idx hidx
+    match idx, hidx with
+    | i :: b, hidx =>
+      obtain ⟨_, hb⟩ := hidx
+      simp [catRows, htr, hte, bidxR_of_inRange hb]
+  · cases hB : bcastR bt bi with
+    | none =>
+      have hg : catInputs tr te = none := by
+        simp [catInputs, htr, hte, h, hB]
+      simp [hg, concatSpec, htr, hte, hB]
+    | some B =>
+      have hg : catInputs tr te = some (catRows (tr.expand (n :: B)) (te.expand (s :: B))) := by
+        simp [catInputs, htr, hte, h, hB, T.expand]
+      rw [hg]
+      simp only [concatSpec, htr, hte, List.tail_cons, hB, Option.map_some]
+      refine ⟨by simp [catRows, T.expand], ?_⟩
+      intro idx hidx
+      match idx, hidx with
+      | i :: b, hidx =>
+        obtain ⟨hi, hb⟩ := hidx
+        simp only [List.headD_cons] at hi
+        by_cases hin : i < n
+        · have : (if n = 1 then 0 else i) = i := by split <;> omega
+          simp [catRows, T.expand, htr, hte, bidxR, hin, this]
+        · have : (if s = 1 then 0 else i - n) = i - n := by split <;> omega
+          simp [catRows, T.expand, htr, hte, bidxR, hin, this]
+
+/-- Multitask models (`t` tasks, `n` train and `s` test points): the generated `num_train` is `n·t`; `test_shape` is
+`(s, t)`; slicing the interleaved joint mean at `num_train` and viewing it as `test_shape` puts at `(p, τ)` the joint
+entry of (test point `p`, task `τ`), i.e. flat index `(n + p)·t + τ`; a flat index lies below `num_train` iff it belongs
+to a TRAIN point; and the flattened train labels are in the same interleaved layout (`y[i, τ]` at `i·t + τ`), so the
+residual `y − m` pairs every label with the prior mean of its own (point, task). -/
+theorem gen_multitask_reshape_eq_model {α : Type} (n s t : Nat) (f g : Nat → Nat → α) :
+    numTrain [n, t] = n * t ∧ testShape [n + s, t] [n, t] = [s, t] ∧
+    (∀ p τ, p < s → τ < t →
+      (viewPredMean (testMean (interleaved f (n + s) t) [n, t]) [n + s, t] [n, t]).get [τ, p] = f (n + p) τ) ∧
+    (∀ k, 0 < t → (k < numTrain [n, t] ↔ k / t < n)) ∧
+    (∀ i τ, i < n → τ < t → (flattenLabels (table g n t) [n, t]).get [i * t + τ] = g i τ) := by
+  refine ⟨by simp [numTrain], by simp [testShape], ?_, ?_, ?_⟩
+  · intro p τ hp hτ
+    have hlt := flat_lt_mul s t p τ hp hτ
+    have hsz : (n + s) * t - n * t = s * t := by rw [Nat.add_mul]; omega
+    obtain ⟨h1, h2⟩ := interleaved_div_mod n p t τ hτ
+    simp [viewPredMean, testMean, testShape, numTrain, dropFirst, interleaved, T.view, ofTorch, flat, unflat, hsz,
+      Nat.mod_eq_of_lt hlt, h1, Nat.mod_eq_of_lt hτ]
+  · intro k ht
+    simp only [numTrain, List.foldl_cons, List.foldl_nil, one_mul]
+    rw [Nat.div_lt_iff_lt_mul ht]
+  · intro i τ hi hτ
+    have ht : 0 < t := by omega
+    have e1 : (i * t + τ) % t = τ := by rw [Nat.add_comm, Nat.add_mul_mod_self_right, Nat.mod_eq_of_lt hτ]
+    have e2 : (i * t + τ) / t = i := by
+      rw [Nat.add_comm, Nat.add_mul_div_right _ _ ht, Nat.div_eq_of_lt hτ]; omega
+    simp [flattenLabels, table, T.view, ofTorch, flat, unflat, e1, e2, Nat.mod_eq_of_lt hi]
+
+/-- Single-output models: `num_train = n`, `test_shape = (s)`, and the view is the identity on the test part. -/
+theorem gen_single_task_reshape {α : Type} (n s : Nat) (v : T α) (hv : v.shape = [n + s]) :
+    numTrain [n] = n ∧ testShape [n + s] [n] = [s] ∧
+    (∀ p, p < s → (viewPredMean (testMean v [n]) [n + s] [n]).get [p] = v.get [n + p]) := by
+  refine ⟨by simp [numTrain], by simp [testShape], ?_⟩
+  intro p hp
+  simp [viewPredMean, testMean, testShape, numTrain, dropFirst, T.view, ofTorch, flat, unflat, hv,
+    Nat.mod_eq_of_lt hp, Nat.add_comm]
+
+/-- `settings.detach_test_caches`: the mean cache (under every NaN policy), the covariance cache and the operator of
+the non-fast covariance solve are `.detach()`ed iff the setting is on. -/
+theorem gen_detach_follows_setting (p : ExactGP.Policy) (on : Bool) :
+    meanCacheDetached p on = detachSpec on ∧ covarCacheDetached on = detachSpec on ∧
+      solveOperandDetached on = detachSpec on := by
+  cases p <;> cases on <;> simp [meanCacheDetached, covarCacheDetached, solveOperandDetached, detachSpec]
+
+/-- … and detaching changes no VALUE: the generated caches and the generated `exact_prediction` are the same function
+of their inputs whatever `cfg.detach` is. -/
+theorem gen_detach_value_invariant [DecidableEq α] (cfg : Gen.ExactAlgebra.Cfg)
+    (b : Bool) (J : DMat (n + s) (n + s) α) (mj : DMat (n + s) 1 α) (A : DMat n n α) (mx y : DMat n 1 α)
+    (R : DMat n k α) (obs : Fin n → Bool) (c : α) :
+    Gen.ExactAlgebra.mean_cache_ignore { cfg with detach := b } A mx y = Gen.ExactAlgebra.mean_cache_ignore cfg A mx y ∧
+    Gen.ExactAlgebra.mean_cache_mask { cfg with detach := b } A mx y obs = Gen.ExactAlgebra.mean_cache_mask cfg A mx y obs ∧
+    Gen.ExactAlgebra.mean_cache_fill { cfg with detach := b } A mx y obs c =
+      Gen.ExactAlgebra.mean_cache_fill cfg A mx y obs c ∧
+    Gen.ExactAlgebra.exact_prediction { cfg with detach := b } J mj A mx y R obs c =
+      Gen.ExactAlgebra.exact_prediction cfg J mj A mx y R obs c := by
+  refine ⟨rfl, rfl, rfl, rfl⟩
+
+end callgen
+
 /-! ### The hypotheses are satisfiable (non-vacuity) -/
 
 /-- A concrete 2-train / 1-test instance over `ℚ`: the driver's `posterior` returns a value. -/
@@ -298,5 +439,19 @@ example : (posterior (n := 2) (s := 1)
 example : (DMat.inv? (DMat.ofMatrix !![(4 : ℚ), 0; 0, 1 / 4])).map (·.arr)
     = some (rootGram (DMat.ofMatrix !![(1 / 2 : ℚ), 0; 0, 2])).arr := by
   decide +kernel
+
+/-- `gen_concat_eq_model` is not vacuous: train rows `(3, 2, ·)` (batch `[3]`, `n = 2`) with an unbatched test row give the
+batch shape `[3]` and `3` rows; the flat positions read are train batch element `b`, rows 0–1, then test row 0. -/
+example : (Gen.ExactCall.catInputs (Bcast.T.arange [2, 3]) (Bcast.T.arange [1])).map (fun r => (r.shape, r.toFlat))
+    = some ([3, 3], [0, 1, 0, 2, 3, 0, 4, 5, 0]) := by decide
+
+/-- … and batch shapes that do not broadcast (`[3]` against `[2]`) give `none` on both sides. -/
+example : (Gen.ExactCall.catInputs (Bcast.T.arange [2, 3]) (Bcast.T.arange [1, 2])).isNone = true ∧
+    (ExactCall.concatSpec (Bcast.T.arange [2, 3]) (Bcast.T.arange [1, 2])).isNone = true := by decide
+
+/-- The hypotheses of `gen_posterior_branch_iff` / `gen_training_branch` / `gen_prior_branch` are satisfiable. -/
+example : Gen.ExactCall.callMode ⟨false, true, true, true, false, true, true⟩ = ExactCall.Outcome.posterior true ∧
+    Gen.ExactCall.callMode ⟨true, true, true, true, false, false, true⟩ = ExactCall.Outcome.raiseMustTrainOnTrainInputs ∧
+    Gen.ExactCall.callMode ⟨false, true, true, false, true, false, true⟩ = ExactCall.Outcome.priorAtArgs := by decide
 
 end C01
